@@ -12,7 +12,7 @@
    group g is  nunits + g. *)
 
 From Coq Require Import List ZArith Bool Arith Lia.
-From NR Require Import Model.Engine Model.Estimates.
+From NR Require Import Model.Engine Model.Estimates Model.Format.
 Import ListNotations.
 Open Scope Z_scope.
 
@@ -368,3 +368,10 @@ Definition g_new_solution (gi : ginput) : option state :=
       init_vehicles gi (seqn (length (in_vehicles inp)))
                     (g_refresh gi (mkState (st_routes s0) [] tops [] [] 0))
   end.
+
+(* ---- output (factory/format.go toSolutionOutputStops: a PlanAll unit lists the stops of all its members) *)
+Definition g_format_solution (gi : ginput) (s : state) : solution_out :=
+  let inp := gi_inp gi in
+  let o := format_solution inp s in
+  mkSolOut (flat_map (fun id => flat_map (fun u => iu_stops (get_unit inp u)) (members_of gi id)) (st_unplanned s))
+           (out_vehicles o) (st_scores s) (st_total s).
